@@ -23,24 +23,12 @@ func init() {
 
 func runC01(c *engine.Ctx, tier string) {
 	c.Al = transactionAliases(c.P)
-	rng := "@T.Status.Proposals"
-	gates := []struct{ id, field, rhs, clause string }{
-		{"C01.1a", "config/v2.TransactionInitializePhase.State", "config/v2.TransactionInitializePhase_INITIALIZED",
-			"@PE.Status.Phases.Initialize != nil && @PE.Status.Phases.Initialize.State == config/v2.ProposalInitializePhase_INITIALIZED"},
-		{"C01.1b", "config/v2.TransactionValidatePhase.State", "config/v2.TransactionValidatePhase_VALIDATED",
-			"@PE.Status.Phases.Validate != nil && @PE.Status.Phases.Validate.State == config/v2.ProposalValidatePhase_VALIDATED"},
-		{"C01.1c", "config/v2.TransactionCommitPhase.State", "config/v2.TransactionCommitPhase_COMMITTED",
-			"@PE.Status.Phases.Commit != nil && @PE.Status.Phases.Commit.State == config/v2.ProposalCommitPhase_COMMITTED"},
-		{"C01.1d", "config/v2.TransactionAbortPhase.State", "config/v2.TransactionAbortPhase_ABORTED",
-			"@PE.Status.Phases.Abort != nil && @PE.Status.Phases.Abort.State == config/v2.ProposalAbortPhase_ABORTED"},
-		{"C01.1e", "config/v2.TransactionApplyPhase.State", "config/v2.TransactionApplyPhase_APPLIED",
-			"@PE.Status.Phases.Apply != nil && @PE.Status.Phases.Apply.State == config/v2.ProposalApplyPhase_APPLIED"},
-	}
-	for _, g := range gates {
-		c.Gate(engine.Gate{ID: g.id, Pkg: pkgTransactionCtl, Min: 1, Range: rng, Clause: "err(@PE) == nil && " + g.clause,
-			Sel: engine.Sel{Field: g.field, RHS: g.rhs},
-			Why: "the transaction advances only when every one of its proposals (every named target) reached the state; one missing target would commit/apply a partial request"})
-	}
+	allProposalsGates(c, "C01.1", "abcde")
+	// the cursor a target's record carries never runs ahead of the values persisted for it: otherwise a
+	// crash inside one store update leaves that target claiming a change whose values are lost, while the
+	// other targets of the request hold theirs
+	storeWriteOrder(c, "C01.8a", "C01.8b")
+	c.Al = transactionAliases(c.P)
 	for _, g := range []struct{ id, rhs, prev string }{
 		{"C01.1f", "config/v2.TransactionStatus_VALIDATED", "config/v2.TransactionValidatePhase.State=config/v2.TransactionValidatePhase_VALIDATED"},
 		{"C01.1g", "config/v2.TransactionStatus_COMMITTED", "config/v2.TransactionCommitPhase.State=config/v2.TransactionCommitPhase_COMMITTED"},
@@ -200,4 +188,33 @@ func onePerTarget(c *engine.Ctx, id, rangeExpr string) {
 		}
 	}
 	o.Done(1)
+}
+
+// allProposalsGates: the transaction advances only when every one of its proposals reached the state
+// (shared by C01 and C02). letters selects the phases (a init, b validate, c commit, d abort, e apply).
+func allProposalsGates(c *engine.Ctx, idPrefix, letters string) {
+	saved := c.Al
+	c.Al = transactionAliases(c.P)
+	rng := "@T.Status.Proposals"
+	gates := []struct{ id, field, rhs, clause string }{
+		{"a", "config/v2.TransactionInitializePhase.State", "config/v2.TransactionInitializePhase_INITIALIZED",
+			"@PE.Status.Phases.Initialize != nil && @PE.Status.Phases.Initialize.State == config/v2.ProposalInitializePhase_INITIALIZED"},
+		{"b", "config/v2.TransactionValidatePhase.State", "config/v2.TransactionValidatePhase_VALIDATED",
+			"@PE.Status.Phases.Validate != nil && @PE.Status.Phases.Validate.State == config/v2.ProposalValidatePhase_VALIDATED"},
+		{"c", "config/v2.TransactionCommitPhase.State", "config/v2.TransactionCommitPhase_COMMITTED",
+			"@PE.Status.Phases.Commit != nil && @PE.Status.Phases.Commit.State == config/v2.ProposalCommitPhase_COMMITTED"},
+		{"d", "config/v2.TransactionAbortPhase.State", "config/v2.TransactionAbortPhase_ABORTED",
+			"@PE.Status.Phases.Abort != nil && @PE.Status.Phases.Abort.State == config/v2.ProposalAbortPhase_ABORTED"},
+		{"e", "config/v2.TransactionApplyPhase.State", "config/v2.TransactionApplyPhase_APPLIED",
+			"@PE.Status.Phases.Apply != nil && @PE.Status.Phases.Apply.State == config/v2.ProposalApplyPhase_APPLIED"},
+	}
+	for _, g := range gates {
+		if !strings.Contains(letters, g.id) {
+			continue
+		}
+		c.Gate(engine.Gate{ID: idPrefix + g.id, Pkg: pkgTransactionCtl, Min: 1, Range: rng, Clause: "err(@PE) == nil && " + g.clause,
+			Sel: engine.Sel{Field: g.field, RHS: g.rhs},
+			Why: "the transaction advances only when every one of its proposals (every named target) reached the state; one missing target would commit/apply a partial request"})
+	}
+	c.Al = saved
 }
